@@ -187,6 +187,38 @@ def run(tier, seed, rng):
                 OG.add_eq(x[1], x, y)
                 must_differ.append((62000, len([o for o in OG.ops if o.get('op') == 'eqvals']) - 1, decl.py_value(x), decl.py_value(y)))
     groups.append(OG)
+    # ---- field kinds the generator does not produce: EMBEDDED references (Ref(..., embed=True): the fields of the referenced packet
+    # live in the holder), Em(), bit fields, described fields -- ==, != and repr on PARSED packets, one field changed
+    xsrc = ("class XPt(Packet):\n    x = Int(1)\n    y = Int(1)\n"
+            "class XP3(Packet):\n    point_2d = Ref(XPt(x=1, y=2), embed=True)\n    z = Int(1)\n"
+            "class XP3L(Packet):\n    __bisturi__ = {'generate_for_pack': False, 'generate_for_unpack': False}\n    point_2d = Ref(XPt, embed=True)\n    z = Int(1)\n"
+            "class XHd(Packet):\n    name = Data(until_marker=b'\\x00')\n    kind = Int(1)\n"
+            "class XMsg(Packet):\n    tag = Data(until_marker=b':')\n    header = Ref(XHd, embed=True)\n    body = Int(2)\n    items = Ref(XP3).repeated(count=lambda pkt, **k: pkt.kind)\n"
+            "class XBits(Packet):\n    a = Bits(3)\n    b = Bits(5)\n    c = Int(1)\n    e = Em()\n"
+            "class XOuter(Packet):\n    h = Int(1)\n    inner = Ref(XP3)\n    t = Int(1)\n")
+    xcases, xmeta = [], []
+    for cls_, raw, changes in (('XP3', bytes([3, 4, 5]), ['x', 'y', 'z']), ('XP3L', bytes([3, 4, 5]), ['x', 'y', 'z']),
+                               ('XMsg', b'ab:nm\x00\x02\x00\x09\x01\x02\x03\x04\x05\x06', ['tag', 'name', 'body']), ('XMsg', b':\x00\x00\x00\x09', ['kind', 'body']),
+                               ('XBits', bytes([0xab, 7]), ['a', 'b', 'c']), ('XOuter', bytes([1, 3, 4, 5, 9]), ['h', 't'])):
+        for ch in changes:
+            newv = {"x": "7a7a"} if ch in ('tag', 'name') else 6
+            other = {'XP3': 'XP3L', 'XP3L': 'XP3'}.get(cls_, 'XPt')
+            xcases.append(dict(cls=cls_, op='eq', raw=raw.hex(), offset=0, other=other, change=dict(path=[ch], value=newv))); xmeta.append((cls_, raw, ch))
+    xres = run_impl(os.path.join(VERIF, 'harness', 'impl_pkt.py'), dict(header=decl.HEADER_PY, blocks=[dict(name='embed', src=xsrc)], modname='c20x', cases=xcases))
+    embed_failures = []
+    for (cls_, raw, ch), o in zip(xmeta, xres['outcomes']):
+        oo = o.get('ok') or {}
+        bad = []
+        if oo.get('eq_same') is not True: bad.append(f"two parses of the same bytes: == gives {oo.get('eq_same')}")
+        if oo.get('ne_same') is not False: bad.append(f"two parses of the same bytes: != gives {oo.get('ne_same')}")
+        if oo.get('eq_self') is not True: bad.append(f"p == p gives {oo.get('eq_self')}")
+        if oo.get('repr') is not True: bad.append(f"repr gives {oo.get('repr')}")
+        if list(oo.get('eq_default') or []) != [True, False]: bad.append(f"two default packets: ==, != give {oo.get('eq_default')}")
+        if list(oo.get('eq_other_type') or []) != [False, True, False]: bad.append(f"against 5, 5, None: {oo.get('eq_other_type')}")
+        if list(oo.get('eq_other_class') or []) != [False, True]: bad.append(f"against a packet of another class: {oo.get('eq_other_class')}")
+        if oo.get('changed') != 'SAME' and list(oo.get('changed') or []) != [False, True, False]: bad.append(f"after changing {ch}: ==, !=, reversed == give {oo.get('changed')}")
+        if bad:
+            embed_failures.append(dict(kind='oracle', sig='eq-embedded', what='; '.join(bad) + ' (a class with an embedded reference / Em / bit fields)', classes=xsrc, cls=cls_, raw=raw.hex(), offset=0, change=ch, observed=o))
     # the 'eq' operation needs bytes: take the encoding of the value (pack through the implementation first)
     for G in groups:
         for op in G.ops:
@@ -194,7 +226,7 @@ def run(tier, seed, rng):
                 op['op'] = 'eq_from_value'
                 op['value'] = pktcases.jvalue(op.pop('_value'))
     records, disagreements = pktcases.run_groups(groups, 'c20')
-    failures_early = []
+    failures_early = list(embed_failures)
     failures = failures_early
     dist = dict(pairs=0, positioned=0, changed=0, other_class=0, constructed_pairs=0)
     for r in records:
